@@ -75,8 +75,8 @@ func (its *DatatypeManager) ReceiveNotification(topic string, notification model
 		its.ctx.L().Infof("drain own notification")
 		return
 	}
-	splitTopic := strings.Split(topic, "/")
-	datatypeKey := splitTopic[1]
+	// the topic is <collection>/<key>, and a key may contain '/' itself
+	datatypeKey := strings.TrimPrefix(topic, its.ctx.Client.Collection+"/")
 	if data, ok := its.dataMap[datatypeKey]; ok && data.GetDUID() == notification.DUID {
 		if err := its.syncIfNeedPull(data, notification.Sseq); err != nil {
 			// TODO: call errorHandler
